@@ -220,7 +220,10 @@ def systematic_resample(
     cumulative_sum = weights[0]
     indeces = np.empty(size, dtype=int)
     for i in range(size):
-        while positions[i] > cumulative_sum:
+        # The cumulative sum can end a rounding error below 1 while the last position
+        # is a rounding error below 1 too (uniform offset close to 1): stay on the last
+        # sample instead of walking off the end of the weights.
+        while positions[i] > cumulative_sum and j < len(weights) - 1:
             j += 1
             cumulative_sum += weights[j]
         indeces[i] = j
